@@ -15,7 +15,7 @@ cd $WT
 if ! git apply $SRC/m$K.diff 2>/tmp/apply_err_${ID}_$K; then
   if ! git apply -3 $SRC/m$K.diff 2>>/tmp/apply_err_${ID}_$K; then echo "RESULT $ID m$K: patch does not apply"; cat /tmp/apply_err_${ID}_$K; exit 1; fi
 fi
-git diff > /tmp/confirm_patch_${ID}_$K.diff
+git diff HEAD > /tmp/confirm_patch_${ID}_$K.diff
 go build ./... || { echo "RESULT $ID m$K: does not build"; exit 1; }
 SUITE=$(go test -vet=off -count=1 ./... 2>&1 | grep -v "no test files")
 if echo "$SUITE" | grep -q "^FAIL\|^---\ FAIL\|^panic"; then
@@ -25,7 +25,7 @@ if echo "$SUITE" | grep -q "^FAIL\|^---\ FAIL\|^panic"; then
 fi
 cp $SRC/m${K}_demo_test.go $WT/zz_demo_test.go
 D1=$(timeout 120 go test -vet=off -count=1 -run "TestSeededDemo$K\$" . 2>&1); R1=$?
-git checkout -- . ; 
+git reset -q --hard HEAD
 D2=$(timeout 120 go test -vet=off -count=1 -run "TestSeededDemo$K\$" . 2>&1); R2=$?
 if [ $R1 -ne 0 ] && [ $R2 -eq 0 ]; then
   mkdir -p /verif/seeded/${ID}_m$K
